@@ -97,6 +97,8 @@ def _fromlist_unit(unordered):
             path.assume(ForAll([s_], st['arr'](s_) == s_, patterns=[st['arr'](s_)]))
             calls = []
             inst = ObjV('Lattice', {}, name='inst')
+            inst.own_instance = True      # the result of `object.__new__(cls)`: an instance of the class under contract (its methods that the contract
+            #                               does not know are the methods of that class, executed in place like those called on `self`)
             snapshot = {}
 
             def cobj(s):
@@ -214,6 +216,7 @@ def _fromlist_unit(unordered):
             concepts = ObjV('list', {}, name='concepts')
             concepts.fields['__getitem__'] = FuncV('list.__getitem__', lambda p, a, k: _item(p, a[-1]))
             concepts.fields['__iter__'] = FuncV('list.__iter__', lambda p, a, k: IterV(lambda q, _arr=st['arr']: cobj(_arr(q)), L.N, 'iter(concepts)'))
+            concepts.fields['__len__'] = FuncV('list.__len__', lambda p, a, k: IntV(L.N))      # one member per entry of the stored list
 
             def _item(p, i):
                 p.oblige('index@concepts', 'index', And(0 <= i.t, i.t < L.N))
